@@ -1,5 +1,5 @@
 SPECIFICATION Spec
-CONSTANTS D = 2
+CONSTANTS D = 3
 INVARIANTS DistinctPaths NoSelfWhenOff LiteralQuiet
 CONSTRAINT Emit
 CHECK_DEADLOCK FALSE
